@@ -15,6 +15,8 @@ import (
 	"fmt"
 	"html/template"
 	"io"
+	"os"
+	"path/filepath"
 	"runtime"
 	"runtime/debug"
 	"strings"
@@ -44,13 +46,17 @@ var htmlSeen = map[string]bool{}
 
 // robustCheck is the oracle of C03 for one input.
 func robustCheck(input []byte, renderHTML bool) *h.Viol {
+	return robustCheckOpts(input, renderHTML, plainOpts)
+}
+
+func robustCheckOpts(input []byte, renderHTML bool, mkOpts func() *Opts) *h.Viol {
 	nLines := bytes.Count(input, []byte("\n")) + 1
 	mk := func(fp, msg string) *h.Viol {
 		v := &h.Viol{Fingerprint: "C03/" + fp, Summary: msg, Kind: "input"}
 		v.SetInput(input)
 		return v
 	}
-	calls, terminated := resumeLoop(input, plainOpts(), nLines+2)
+	calls, terminated := resumeLoop(input, mkOpts(), nLines+2)
 	for _, c := range calls {
 		if c.panicked != "" {
 			return mk("panic:"+firstLine(c.panicked)+"@"+panicSite(c.panicked), "ScanSnapshot panicked: "+firstLine(c.panicked))
@@ -117,7 +123,7 @@ func renderAll(s *Snapshot, renderHTML bool, mk func(fp, msg string) *h.Viol) (v
 func TestVerifC03(t *testing.T) {
 	r := h.Start("C03")
 	defer r.Finish(func(s string) { t.Error(s) })
-	r.Set("rule", "(a) every (product state, symbol) trace of the C07 search incl. malformed symbols, under recover; (b) per seed input (one per line kind of both grammars): all single line edits (delete i, duplicate i, swap i j, move i->j, splice line k of another seed at i; thorough: all pairs of delete/duplicate/splice edits), all single token corruptions (every number x 8 replacements, every position of every symbol x 9 escape fragments, every argument list x 19 bracket patterns, every address x 5), all single byte substitutions (256 values x every offset) of three short seeds, all truncations; (c) every returned snapshot: Aggregate x 4, both ToHTML; (d) resume loop terminates within lines+2 calls with progress; (e) allocation and Read-call growth on n, 2n, 4n inputs. non-trivial = the edited input differs from its seed; distinct = input bytes")
+	r.Set("rule", "(a) every (product state, symbol) trace of the C07 search incl. malformed symbols, under recover; (b) per seed input (one per line kind of both grammars): all single line edits (delete i, duplicate i, swap i j, move i->j, splice line k of another seed at i; thorough: all pairs of delete/duplicate/splice edits), all single token corruptions (every number x 8 replacements, every position of every symbol x 9 escape fragments, every argument list x 19 bracket patterns, every address x 5), all single byte substitutions (256 values x every offset) of three short seeds, all truncations; (c) every returned snapshot: Aggregate x 4, both ToHTML; (d) resume loop terminates within lines+2 calls with progress; (e) allocation and Read-call growth on n, 2n, 4n inputs; (f) the same edit families over two dumps whose frames point at real sources (scratch GOPATH, scratch module, local Go root) scanned with path guessing and source analysis on, plus every ordered pair of frame-class sequences of length 1..3 over {main, other package, standard library} as two goroutines of one dump. non-trivial = the edited input differs from its seed; distinct = input bytes")
 	r.Set("assumptions", []string{"coverage-guided mutation (a sampling technique) is replaced by the bounded edit/corruption product", "console rendering and the pp binary are exercised by the C03 part in package internal"})
 	if rv := r.ReplayFile(); rv != nil {
 		in := rv.Input()
@@ -190,9 +196,111 @@ func TestVerifC03(t *testing.T) {
 			}
 		}
 	}
+	// the same edit families over dumps whose frames point at real sources (a scratch
+	// GOPATH, a scratch module, the local Go root), scanned with path guessing and
+	// source analysis on: every number (line numbers included), argument list and line
+	// of a dump that the analysis stage really works on
+	if root, err := os.MkdirTemp(os.Getenv("VERIF_SCRATCH"), "c03src"); err == nil {
+		defer os.RemoveAll(root)
+		if rp, err := filepath.EvalSymlinks(root); err == nil {
+			root = rp
+		}
+		seeds, full := c03SourceSeeds(root)
+		tryFull := func(kind string, seed int, input []byte, changed bool) {
+			// the scratch directory name differs between shard processes: not part of the key
+			key := kind + "\x00" + strings.ReplaceAll(string(input), root, "$ROOT")
+			if !r.Mine(key) || r.Expired() {
+				return
+			}
+			hk := h.Hash(key)
+			v := r.Check(func() *h.Viol {
+				vv := robustCheckOpts(input, true, full)
+				if vv != nil {
+					vv.Fingerprint = strings.Replace(vv.Fingerprint, "C03/", "C03/analysed/", 1)
+					vv.Key = fmt.Sprintf("%s seed%d %s", kind, seed, hk)
+				}
+				return vv
+			})
+			out := "ok"
+			if v != nil {
+				out = v.Fingerprint
+			}
+			r.Record(key, changed, out)
+			r.Add("inputs_"+kind, 1)
+		}
+		gen.SeedEdits(seeds, r.Thorough(), "src-", tryFull)
+		// stack pairs: two goroutines (after a first one) whose stacks are every ordered
+		// pair of frame-class sequences of length 1..3 over {main, other package, standard
+		// library}; equal prefixes are equal frames, so prefixes, ties and every class
+		// count difference occur
+		classes := []struct{ fn, file string }{
+			{"main.f%d", root + "/run/main.go"},
+			{"example.com/p.F%d", root + "/gp/src/example.com/p/p.go"},
+			{"fmt.F%d", runtime.GOROOT() + "/src/fmt/print.go"},
+		}
+		var seqs [][]int
+		var rec func(cur []int)
+		rec = func(cur []int) {
+			if len(cur) > 0 {
+				seqs = append(seqs, append([]int{}, cur...))
+			}
+			if len(cur) == 3 {
+				return
+			}
+			for c := range classes {
+				rec(append(cur, c))
+			}
+		}
+		rec(nil)
+		stackText := func(id int, state string, seq []int) string {
+			var b strings.Builder
+			fmt.Fprintf(&b, "goroutine %d [%s]:\n", id, state)
+			for d, c := range seq {
+				fmt.Fprintf(&b, classes[c].fn+"(0x%d)\n\t%s:%d +0x1\n", d, d+1, classes[c].file, 10+d)
+			}
+			b.WriteString("\n")
+			return b.String()
+		}
+		for i, a := range seqs {
+			for j, b := range seqs {
+				in := []byte(stackText(1, "running", []int{0}) + stackText(2, "select", a) + stackText(3, "select", b))
+				tryFull("stack-pair", 2000+i*len(seqs)+j, in, true)
+			}
+		}
+	}
 	if r.Shard == 0 {
 		growthCheck(r)
 	}
+}
+
+// c03SourceSeeds writes a scratch source tree and returns dumps whose frames point
+// into it (and into the local Go root), plus the options to scan them with.
+func c03SourceSeeds(root string) ([][]byte, func() *Opts) {
+	write := func(rel, content string) {
+		p := filepath.Join(root, rel)
+		_ = os.MkdirAll(filepath.Dir(p), 0o755)
+		_ = os.WriteFile(p, []byte(content), 0o644)
+	}
+	write("gp/src/example.com/p/p.go", "package p\n\nfunc Work(n int, s string, f float32) {\n\tpanic(n)\n}\n\nfunc Start() {\n\tgo Work(1, \"a\", 2)\n}\n\nfunc F0(a int) {}\nfunc F1(a int) {}\nfunc F2(a int) {}\n")
+	write("mod/go.mod", "module example.com/m\n")
+	write("mod/m.go", "package m\n\ntype T struct{ a int }\n\nfunc (t *T) Run(k uint8, xs []int) {\n\tpanic(k)\n}\n")
+	write("run/main.go", "package main\n\nfunc main() {\n\tf0(1)\n}\n\nfunc f0(a int) {}\nfunc f1(a int) {}\nfunc f2(a int) {}\n")
+	goroot := runtime.GOROOT()
+	printlnLine := 10
+	if b, err := os.ReadFile(goroot + "/src/fmt/print.go"); err == nil {
+		for i, l := range strings.Split(string(b), "\n") {
+			if strings.HasPrefix(l, "func Println(") {
+				printlnLine = i + 2
+			}
+		}
+	}
+	R := root
+	seed1 := fmt.Sprintf("panic: boom\n\ngoroutine 1 [running]:\nexample.com/p.Work(0x1, {0xc000012340, 0x3}, 0x7fffffff)\n\t%s/gp/src/example.com/p/p.go:4 +0x1\nexample.com/m.(*T).Run(0xc000045678, 0x2, {0xc0000789a0, 0x2, 0x4})\n\t%s/mod/m.go:6 +0x2\nfmt.Println({0xc000012340, 0x1, 0x1})\n\t%s/src/fmt/print.go:%d +0x3\nmain.main()\n\t%s/run/main.go:4 +0x4\n\ngoroutine 7 [select, 3 minutes]:\nexample.com/p.Work(0x2, {0xc000012340, 0x3}, 0x5)\n\t%s/gp/src/example.com/p/p.go:4 +0x1\ncreated by example.com/p.Start in goroutine 1\n\t%s/gp/src/example.com/p/p.go:8 +0x5\n\ngoroutine 8 [select, 5 minutes]:\nexample.com/p.Work(0x3, {0xc000012340, 0x3}, 0x5)\n\t%s/gp/src/example.com/p/p.go:4 +0x1\ncreated by example.com/p.Start in goroutine 1\n\t%s/gp/src/example.com/p/p.go:8 +0x5\nexit status 2\n", R, R, goroot, printlnLine, R, R, R, R, R)
+	seed2 := fmt.Sprintf("==================\nWARNING: DATA RACE\nWrite at 0x00c000014100 by goroutine 7:\n  example.com/p.Work(0x1, {0xc000012340, 0x3}, 0x5)\n      %s/gp/src/example.com/p/p.go:4 +0x44\n\nPrevious read at 0x00c000014100 by goroutine 6:\n  example.com/m.(*T).Run(0xc000045678, 0x2, {0xc0000789a0, 0x2, 0x4})\n      %s/mod/m.go:6 +0x30\n\nGoroutine 7 (running) created at:\n  example.com/p.Start()\n      %s/gp/src/example.com/p/p.go:8 +0x5\n\nGoroutine 6 (finished) created at:\n  main.main()\n      %s/run/main.go:4 +0x4\n==================\n", R, R, R, R)
+	full := func() *Opts {
+		return &Opts{GuessPaths: true, AnalyzeSources: true, NameArguments: true, LocalGOROOT: goroot, LocalGOPATHs: []string{R + "/gp"}}
+	}
+	return [][]byte{[]byte(seed1), []byte(seed2)}, full
 }
 
 func envPart() string { return osGetenv("VERIF_PART") }
